@@ -4,7 +4,7 @@ ALL 360 integer wind directions x (speed, stability, closure, grid, reference-or
 configurations, everything through parse_config_dict -> run_bldfm_single with the tower given by
 latitude/longitude (placed at the domain centre by the harness' own equirectangular inverse).
 Oracle: bearing from the tower to the centre of mass of the footprint inside the largest disc
-centred on the tower == wind_dir within 10 degrees; compute_wind_fields preserves the speed and
+centred on the tower == wind_dir within 6 degrees; compute_wind_fields preserves the speed and
 maps 0/90/180/270 to winds toward south/west/north/east."""
 
 import itertools
@@ -19,12 +19,13 @@ PROPERTY = "C08"
 LEVEL = "exploration"
 MANIFEST = {
     "technique": "bounded-exhaustive enumeration of all 360 integer wind directions per configuration through the public config-driven interface; rotationally symmetric centroid-bearing oracle",
-    "text": "Every integer wind direction is run for each configuration of a lattice of speeds, stabilities, closures, grid aspect ratios (square cells, oblong domain, dx != dy) and reference origins in all four latitude/longitude sign quadrants, with the tower located by latitude/longitude. The bearing of the footprint's centre of mass (taken in a disc around the tower so the window itself has no preferred direction) must equal the wind direction within 10 degrees; because every direction is enumerated, a swapped sine/cosine (error |90 - 2 wd|), a sign slip in one component, swapped tower coordinates or a wrongly reflected footprint all show somewhere on the circle.",
-    "note": "Tolerance 10 degrees (observed worst 1.7-5.8 degrees from grid discretisation of the disc). The tower is placed with the harness' own equirectangular formula; its returned local position is required to be within 1 m of the domain centre.",
+    "text": "Every integer wind direction is run for each configuration of a lattice of speeds, stabilities, closures, grid aspect ratios (square cells, oblong domain, dx != dy) and reference origins in all four latitude/longitude sign quadrants and on the equator / prime meridian (coordinate exactly 0), with the tower located by latitude/longitude. The bearing of the footprint's centre of mass (taken in a disc around the tower so the window itself has no preferred direction) must equal the wind direction within 6 degrees; because every direction is enumerated, a swapped sine/cosine (error |90 - 2 wd|), a sign slip in one component, swapped tower coordinates or a wrongly reflected footprint all show somewhere on the circle.",
+    "note": "Tolerance 6 degrees (observed worst 3.3 degrees with the Gaussian-tapered disc window; a hard-edged disc gives up to 4.5). The tower is placed with the harness' own equirectangular formula; its returned local position is required to be within 1 m of the domain centre.",
 }
 
-GRIDS = {"square": (32, 32, 400.0, 400.0), "oblong": (32, 48, 400.0, 600.0), "aniso": (24, 16, 300.0, 400.0)}
-ORIGINS = {"NE": (50.0, 10.0), "NW": (35.0, -105.0), "SE": (-33.0, 151.0), "SW": (-23.0, -46.0)}
+GRIDS = {"square": (32, 32, 400.0, 400.0), "oblong": (32, 48, 400.0, 600.0), "aniso": (48, 32, 300.0, 400.0)}
+ORIGINS = {"NE": (50.0, 10.0), "NW": (35.0, -105.0), "SE": (-33.0, 151.0), "SW": (-23.0, -46.0), "equator": (0.0, 37.0), "greenwich": (51.5, 0.0), "null-island": (0.0, 0.0)}
+TOL_DEG = 6.0
 
 
 def configs(tier):
@@ -73,7 +74,10 @@ def case_circle(case):
             v.append({"sub": "tower-position", "sig": "tower-position", "msg": "tower placed %.1f m east / %.1f m north of the origin %s is reported at (%.2f, %.2f) (wd=%d); case %s" % (xmax / 2, ymax / 2, ORIGINS[case["origin"]], tx, ty, wd, core.canon(case))})
             break
         Rd = 0.95 * min(xmax, ymax) / 2
-        wgt = f * (((X - tx) ** 2 + (Y - ty) ** 2) <= Rd**2)
+        rr2 = (X - tx) ** 2 + (Y - ty) ** 2
+        # rotationally symmetric, smooth window (Gaussian inside the largest disc): a hard-edged disc adds up to
+        # 4.5 deg of pure discretisation error on these grids, the taper keeps it below 3.3 deg
+        wgt = f * np.exp(-rr2 / (0.45 * Rd) ** 2) * (rr2 <= Rd**2)
         cx, cy = (wgt * (X - tx)).sum(), (wgt * (Y - ty)).sum()
         if not (np.isfinite(cx) and np.isfinite(cy)) or (cx == 0 and cy == 0):
             v.append({"sub": "bearing", "sig": "bearing/degenerate", "msg": "footprint centroid undefined for wd=%d; case %s" % (wd, core.canon(case))})
@@ -81,8 +85,8 @@ def case_circle(case):
         b = math.degrees(math.atan2(cx, cy)) % 360
         e = abs((b - wd + 180) % 360 - 180)
         worst = max(worst, e)
-        if e > 10.0:
-            v.append({"sub": "bearing", "sig": "bearing", "msg": "wind_dir=%d: footprint centre of mass lies at bearing %.1f from the tower (error %.1f deg > 10); case %s" % (wd, b, e, core.canon(case))})
+        if e > TOL_DEG:
+            v.append({"sub": "bearing", "sig": "bearing", "msg": "wind_dir=%d: footprint centre of mass lies at bearing %.1f from the tower (error %.1f deg > %g); case %s" % (wd, b, e, TOL_DEG, core.canon(case))})
     for wd, exp in ((0, (0.0, -s)), (90, (-s, 0.0)), (180, (0.0, s)), (270, (s, 0.0))):
         u, w = compute_wind_fields(s, float(wd))
         if abs(u - exp[0]) > 1e-9 * s or abs(w - exp[1]) > 1e-9 * s:
@@ -93,7 +97,7 @@ def case_circle(case):
 def run(ctx):
     core.warm_numba()
     ctx.rule = (
-        "all 360 integer wind directions for each configuration (quick: 12 configurations = 3 grids x 4 origin quadrants with closures/stabilities/speeds cycling; thorough: the full product of 3 grids x 4 origins x 3 closures x 3 stabilities x 2 speeds); "
+        "all 360 integer wind directions for each configuration (quick: 21 configurations = 3 grids x 7 reference origins with closures/stabilities/speeds cycling; thorough: the full product of 3 grids x 7 origins x 3 closures x 3 stabilities x 2 speeds); "
         "every (configuration, direction) pair is a distinct non-trivial run; evaluations counts single runs"
     )
     res = ctx.run_cases(case_circle, configs(ctx.tier), sub="circle", chunksize=1)
